@@ -970,8 +970,9 @@ double sexp_to_double (sexp ctx, sexp x) {
 #if SEXP_USE_COMPLEX
 
 static sexp sexp_complex_copy (sexp ctx, sexp a) {
-  sexp_gc_var1(res);
-  sexp_gc_preserve1(ctx, res);
+  sexp_gc_var2(res, tmp);
+  sexp_gc_preserve2(ctx, res, tmp);
+  tmp = a;
   res = sexp_make_complex(ctx, sexp_complex_real(a), sexp_complex_imag(a));
   if (sexp_flonump(sexp_complex_real(a)))
     sexp_complex_real(a) = sexp_make_flonum(ctx, sexp_flonum_value(sexp_complex_real(a)));
@@ -981,7 +982,7 @@ static sexp sexp_complex_copy (sexp ctx, sexp a) {
     sexp_complex_imag(a) = sexp_make_flonum(ctx, sexp_flonum_value(sexp_complex_imag(a)));
   else if (sexp_bignump(sexp_complex_imag(a)))
     sexp_complex_imag(a) = sexp_copy_bignum(ctx, NULL, sexp_complex_imag(a), 0);
-  sexp_gc_release1(ctx);
+  sexp_gc_release2(ctx);
   return res;
 }
 
@@ -1464,7 +1465,7 @@ sexp sexp_sub (sexp ctx, sexp a, sexp b) {
     a = tmp2 = sexp_make_complex(ctx, tmp1, SEXP_ZERO);
     goto complex_sub;
   case SEXP_NUM_CPX_RAT:
-    b = tmp1 = sexp_make_flonum(ctx, sexp_ratio_to_double(ctx, b));
+    b = tmp2 = sexp_make_flonum(ctx, sexp_ratio_to_double(ctx, b));
     /* ... FALLTHROUGH ... */
 #endif
   case SEXP_NUM_CPX_FLO:
